@@ -353,6 +353,48 @@ def run(ctx, rep, model=None):
             if p is not None:
                 return False
         return True
+    # model evaluation of the predicate itself on nested plain values (the structural rules below are kept for the shapes they
+    # recognise; this one decides whatever the spelling: generator, map(), explicit loop, early returns)
+    from .. import miniinterp as MI
+
+    class _Opaque:
+        pass
+    OP = _Opaque()
+    samples_d = [1, -7, 10 ** 40, "a", "", b"x", None, True, 2.5, 1j, Ellipsis, NotImplemented, (), (1, "a"), (1, (2, (3,))),
+                 (1, [2]), ([], 1), (([],), (1,)), ((1,), ([],)), (("a", [1]), ("b", 2)), (1, OP, 3), frozenset(), frozenset({1, "a"}),
+                 frozenset({(1, 2), (3,)}), frozenset({(1, OP)}), slice(1, 2, 3), slice(None, None, None), slice(OP, 1, None),
+                 slice(1, OP, 2), slice(1, 2, OP), slice((1, 2), "a", None), (slice(1, [], 2),), [1], {}, {1}, OP, bytearray(b"x"),
+                 (1, frozenset({(2, OP)})), frozenset({frozenset({1})}), (True, 1, 1.0), range(3)]
+    plain_types = set(keys)
+
+    def ref_dumpable(v):
+        t = type(v)
+        if t not in plain_types:
+            return False
+        if t in (tuple, frozenset):
+            return all(ref_dumpable(x) for x in v)
+        if t is slice:
+            return ref_dumpable(v.start) and ref_dumpable(v.stop) and ref_dumpable(v.step)
+        return True
+    bad_m = []
+    try:
+        extra_m = {"__calls__": {"type": type}, "__max_iter__": 2000}
+        extra_m["__global_lookup__"] = K.module_function_lookup(ctx, mod, extra_m)
+        for v in samples_d:
+            try:
+                got = MI.call_function(fd.node, [v], extra_m)
+            except MI.Raised as r_:
+                got = "raises " + r_.name
+            if got is not ref_dumpable(v) and not (got in (True, False) and bool(got) == ref_dumpable(v) and type(got) is bool):
+                bad_m.append("dumpable(%s) is %r, expected %r" % (_show_val(v, OP), got, ref_dumpable(v)))
+        rep.ob("R04.1", "brine.dumpable: evaluated on nested plain values and impostors, it accepts exactly the values whose every "
+               "part has a registered exact type", not bad_m,
+               "%d values (tuples, frozensets and slices with an unserializable part in every position, bool/int/float triples, "
+               "subclass-free impostors)" % len(samples_d) if not bad_m else "; ".join(bad_m[:3]), fd.loc, kind="model")
+        model_decides = True
+    except AnalysisError as e_:
+        rep.undecided("R04.1", "brine.dumpable model", str(e_))
+        model_decides = False
     for ct in sorted(keys & {tuple, frozenset}, key=lambda t: t.__name__):
         kinds, rets, nodes, ok_e = verdicts[ct]
         okc = False
@@ -364,6 +406,8 @@ def run(ctx, rep, model=None):
                     A.src(v.args[0].elt.args[0]) == A.src(v.args[0].generators[0].target):
                 okc = True
         okc = okc and "true" not in kinds
+        if not okc and model_decides and not bad_m:
+            continue          # another spelling of the same predicate: decided by the model evaluation above
         rep.ob("R04.1", "brine.dumpable: a %s is accepted only if all its parts are" % ct.__name__, okc,
                "all(dumpable(item) for item in obj)" if okc else "a %s can be declared serializable without checking every item"
                % ct.__name__, fd.loc)
@@ -728,6 +772,18 @@ def run(ctx, rep, model=None):
            # an effect found inside a new helper is an effect of the decoder all the same (no "cannot decide" downgrade)
            kind="model" if any("module-level state" in w or "forbidden effect" in w for _, w in bad_calls) else "path")
     return m
+
+
+def _show_val(v, op):
+    if v is op:
+        return "<unserializable>"
+    if isinstance(v, tuple):
+        return "(" + ", ".join(_show_val(x, op) for x in v) + ("," if len(v) == 1 else "") + ")"
+    if isinstance(v, frozenset):
+        return "frozenset({" + ", ".join(sorted(_show_val(x, op) for x in v)) + "})"
+    if isinstance(v, slice):
+        return "slice(%s, %s, %s)" % tuple(_show_val(x, op) for x in (v.start, v.stop, v.step))
+    return repr(v)
 
 
 def _valdesc(val):
